@@ -106,6 +106,7 @@ func C03(c *Ctx) {
 	c.emptiedDocRule("C03-9")
 	c.cutRangeRule("C03-10")
 	c.searchFlagRule("C03-11")
+	c.identifierRule("C03-12")
 
 	r.Rule("C03-5", "lookupType: an unqualified function name of a notation is resolved with Scope().Innermost(pos).LookupParent(name, pos) of the package scope (so file-scope names from dot-imports resolve); a qualified one through the import table")
 	if fn := c.MustMethod("C03-5", "/pkg/parser", "Parser", "lookupType"); fn != nil {
